@@ -99,7 +99,8 @@ impl Engine for Msim {
                 strategy: gen::contend_case(&ctx.prop),
             });
         }
-        if ctx.prop == "C04" {
+        // the clauses about timed-out calls need a runtime: delegated to the virtual-clock interpreter
+        if matches!(ctx.prop.as_str(), "C01" | "C02" | "C03" | "C04") {
             stages.push(Stage {
                 name: "timeouts".into(),
                 cases: if thorough { 16 * 100000 } else { 16 * 6000 },
